@@ -7,8 +7,8 @@ META = {
     "level": "proof",
     "technique": "Coq proofs (ring/lia, invariants over fuelled loops) about a Gallina transcription of rings.py + norm_solver.py; vm_compute correspondence against the real classes; direct law/solution/primality oracles",
     "design_ref": "DESIGN.md §3 C16",
-    "text": "Props/C16.v proves for ALL elements: commutative-ring laws of Z[sqrt2] and Z[omega] (assoc, comm, distributivity, identities, inverses), int-scalar ops agree with the embedding, pow laws, conj/adj2 are involutive ring homomorphisms, abs(x*y)=abs x*abs y in both rings, to_omega/to_sqrt_two are mutually inverse homomorphic embeddings, exact division and sqrt are sound, % is a (signed) congruence, DyadicMatrix.normalize/ZOmega.normalize preserve the denoted value (A = sqrt2^j * A', k' = k - j), 2x2 and 3x3 matrix product associativity/distributivity, DyadicMatrix addition denotes the sum; for EVERY scale the final checks of _solve_diophantine only return t with conj(t)*t = xi; _sqrt_modulo_p only returns r with r^2 = n mod p; _primality_test = trial division for every n below the bound stated in the theorem, and primeb is proved equivalent to Znumtheory.prime. The same Gallina definitions are evaluated in Coq on generated inputs (200-bit random + exhaustive small) and compared with the real classes' results; every solution the real solver returns is re-checked inside Coq and by an independent Python oracle; primality answers are compared with trial division (Coq, small n) and an independent Python test (n < 2^64).",
-    "note": "Trusted: Coq kernel; the hand transcription is tied to /repo only by the correspondence run. Oracles (not modelled): _prime_factorize/_integer_factorize (random Pollard-Brent) - their results enter solve_dioph as recorded arguments. Not proved: that the 7 Miller-Rabin bases reject every composite below 2^64 (published search) and that primes are always accepted (needs Fermat's little theorem) - covered only by the bounded theorem + oracle comparison; termination of _gcd (the classes' % is not Euclidean; modelled with fuel). ZSqrtTwo.__mod__ uses float round(n/d): modelled exactly only for |n|,|d| < 2^52, harness keeps __mod__/_gcd operands below 2^21. ZOmega.__truediv__ uses float division: modelled/tested only for quotients < 2^50. SO3Matrix.from_matrix: homomorphism property not proved (only transcription + correspondence + 3x3 product laws). DyadicMatrix.mult2k is transcribed and compared but no law is claimed for it.",
+    "text": "28 kernel-checked theorems (Props/C16.v, all closed under the global context) about the transcription, for ALL elements: commutative-ring laws of Z[sqrt2] and Z[omega] (assoc, comm, distributivity, identities, additive inverses, sub = add neg), int-operand forms = ring ops with the embedded integer, pow laws (x^0, x^1, x^(p+q), negative -> raises; omega^4 = -1), conj/adj2 are commuting involutive ring homomorphisms, abs(x*y) = abs x * abs y in both rings and abs = norm of x*conj x, to_omega/to_sqrt_two are mutually inverse homomorphic embeddings, exact division and sqrt are sound (q*y = x, y*y = x), % is a signed congruence, ZOmega.normalize and DyadicMatrix.normalize preserve the denoted value (A = sqrt2^j * A', k' = k - j; stated cross-multiplied in Z[omega]), 2x2 product assoc/identity/distributivity/conj and 3x3 product assoc; for EVERY scale / factor list / loop outcome the final checks of _solve_diophantine only return t with conj(t)*t = xi; the trial-division oracle primeb is equivalent to Znumtheory.prime and the Miller-Rabin transcription equals it for every n < 12000 (vm_compute, bound in the theorem). Tie: the same Gallina definitions are evaluated in Coq on generated inputs (1..200-bit random, exhaustive small elements, H/T/S word matrices, structured operands) and compared with the results of the real classes for 60 operations; every solution the real solver returns is re-checked inside Coq (model multiplication) and by independent Python arithmetic; ring laws are also evaluated directly on the real classes; _primality_test is compared with trial division evaluated in Coq (n < 2^22) and with an independent Python test (n < 2^64, pseudoprime corpus included).",
+    "note": "Trusted: Coq kernel; the hand transcription (coq/Disc/RingsModel.v) is tied to /repo only by the correspondence run. Oracles, not modelled: _prime_factorize/_integer_factorize (randomised Pollard-Brent) - their observable effect (loop outcome + list of Z[omega] factors) enters solve_dioph as recorded arguments and the soundness theorem quantifies over all of them. NOT proved, only tested: Miller-Rabin correctness above 12000 (that primes are accepted needs Fermat's little theorem; that the 7 bases reject all composites < 2^64 is a published search); _sqrt_modulo_p returns a square root (direct oracle r^2 = n mod p and residuosity for prime p + correspondence); DyadicMatrix.__add__ denotes the sum (law bundles compare denoted values on the real class); SO3Matrix.from_matrix is a homomorphism (transcribed + compared only); termination of _gcd (the classes' % is not Euclidean: modelled with fuel, a hang of the implementation where the model returns is reported). Restricted domains: ZSqrtTwo.__mod__ uses float round(n/d), modelled exactly only for |n|,|d| < 2^52 - __mod__/_gcd operands are kept below 2^21; ZOmega.__truediv__ uses float division and is wrong for quotients >= 2^53 ((ZOmega(2**60+1,0,0,3)*3)/3 != original) - tested only for quotients < 2^50; DyadicMatrix.__add__ computes 2**n via float pow - exponent differences <= 15 tested. Quirks transcribed as they are: SO3Matrix.from_matrix tests `s.parity` (a bound method, always truthy) so its else-branch is dead; ZOmega(0,0,0,0).normalize() does not terminate (not exercised); DyadicMatrix.mult2k(k) returns the matrix unchanged when self.k >= 2k (transcribed and compared, no law claimed); DyadicMatrix.adj2 is entrywise and is not multiplicative on denoted values for odd k (not claimed).",
     "assumptions": ["ring elements hold Python ints (float/complex operands of the operators are outside the model)",
                     "_primality_test is claimed exact only for n < 2^64 (documented range of its bases)"],
     "trusted": ["hand-written model coq/Disc/RingsModel.v tied to /repo by correspondence only",
@@ -137,6 +137,27 @@ def rdm(rng, bits=None):
     return {"e": e, "k": rng.choice([0, 0, 1, 2, 3, 4, 5, 7, 12, -1, -3])}
 
 
+def r_oadd(x, y):
+    return [a + b for a, b in zip(x, y)]
+
+
+GATES = {"H": ([[0, 0, 0, 1], [0, 0, 0, 1], [0, 0, 0, 1], [0, 0, 0, -1]], 1),
+         "T": ([[0, 0, 0, 1], [0, 0, 0, 0], [0, 0, 0, 0], [0, 0, 1, 0]], 0),
+         "S": ([[0, 0, 0, 1], [0, 0, 0, 0], [0, 0, 0, 0], [0, 1, 0, 0]], 0)}
+
+
+def rword(rng, n=None):
+    """raw (un-normalised) DyadicMatrix arguments of a random word in H, T, S: odd and even k, real gridsynth shapes"""
+    e, k = [[0, 0, 0, 1], [0, 0, 0, 0], [0, 0, 0, 0], [0, 0, 0, 1]], 0
+    letters = rng.choice(["HHTTS", "HS", "HHS"])     # Clifford-only words reduce all the way to k = 0
+    for _ in range(n if n is not None else rng.choice([1, 2, 3, 5, 8, 13, 20])):
+        g, gk = GATES[rng.choice(letters)]
+        e = [r_oadd(r_omul(e[0], g[0]), r_omul(e[1], g[2])), r_oadd(r_omul(e[0], g[1]), r_omul(e[1], g[3])),
+             r_oadd(r_omul(e[2], g[0]), r_omul(e[3], g[2])), r_oadd(r_omul(e[2], g[1]), r_omul(e[3], g[3]))]
+        k += gk
+    return {"e": e, "k": k}
+
+
 def small_s():
     return [[a, b] for a in range(-2, 3) for b in range(-2, 3)]
 
@@ -251,6 +272,12 @@ def gen_cases(rng, tier):
         add({"op": "TMk", "m": t1})
         add({"op": "TMatmul", "m": t1, "m2": t2})
         add({"op": "TParity", "m": t1})
+        w1, w2 = rword(rng), rword(rng)
+        add({"op": "TMk", "m": w1})
+        add({"op": "TMatmul", "m": w1, "m2": w2})
+        add({"op": "TParity", "m": w2})
+        add({"op": "DMatmul", "m": w1, "m2": w2})
+        add({"op": "DAdd", "m": w1, "m2": w2})
         # law bundles (direct oracle only)
         b = rng.choice([2, 30, 200])
         add({"op": "SLaw", "x": rs(rng, b), "y": rs(rng, b), "z": rs(rng, b), "n": rint(rng, 40)})
